@@ -1,6 +1,6 @@
 """Runs CSA once per context and exposes its findings to the property rules."""
 from mirlib import CheckerError
-from synlib import find_all, path_of
+from synlib import find_all, path_of, render
 from rules import vmx
 from rules.csa import CSA, CONTRACT, Undecided
 from rules.csa_state import H
@@ -43,6 +43,11 @@ def analyse(ctx):
                         q = mk(op, n)
             if q:
                 c.symtab_bool[name] = q
+        for name, f in S.methods('src/symbols.rs', 'SymbolTable').items():
+            stmts = f['body']['stmts']
+            if f['output'].strip() == '' and stmts and all(st['k'] == 's_expr' and st['expr'].get('k') == 'mcall' and st['expr']['method'] == 'truncate'
+                                                           and 'contexts' in render(st['expr']['recv']) for st in stmts):
+                c.symtab_reset.add(name)
         from rules import tables
         pt = tables.pratt_tables(ctx)
         # what the parser can put into the operator fields (R07.6 checks these sets)
